@@ -12,10 +12,11 @@ Record rfut := mkR {
 }.
 Record sfut := mkS {
   s_alive : bool; s_hp : bool; s_st : sst; s_task : option wid; s_val : option tag;
-  (* ghost *) s_woken : bool; s_lastw : option wid
+  (* ghost *) s_woken : bool; s_lastw : option wid;
+  s_tag : tag                (* ghost: the value this future was created with *)
 }.
 Definition rabsent : rfut := mkR false false RUnreg None false None.
-Definition sabsent : sfut := mkS false false SUnreg None None false None.
+Definition sabsent : sfut := mkS false false SUnreg None None false None 0%N.
 
 Record state := mkState {
   closed : bool;
@@ -142,7 +143,7 @@ Definition try_receive (s : state) : state * option tag * list wid :=
               let s1 := setbuf s (rest ++ [sv]) in
               (sets s1 (removelast (sendq s))
                     (upd g (mkS (s_alive y) (s_hp y) SComplete None None
-                                (s_woken y || woke_by (s_task y) (s_lastw y)) (s_lastw y)) (sfs s)),
+                                (s_woken y || woke_by (s_task y) (s_lastw y)) (s_lastw y) (s_tag y)) (sfs s)),
                Some v, wk_list (s_task y))
           end
       end
@@ -153,7 +154,7 @@ Definition try_receive (s : state) : state * option tag * list wid :=
           let y := gets s g in
           (sets s (removelast (sendq s))
                 (upd g (mkS (s_alive y) (s_hp y) SComplete None None
-                            (s_woken y || woke_by (s_task y) (s_lastw y)) (s_lastw y)) (sfs s)),
+                            (s_woken y || woke_by (s_task y) (s_lastw y)) (s_lastw y) (s_tag y)) (sfs s)),
            s_val y, wk_list (s_task y))
       | None => (s, None, [])
       end
@@ -174,7 +175,7 @@ Fixpoint wake_sends (fs : list sfut) (order : list fid) (acc : list wid) : list 
   | f :: r =>
       let x := nth f fs sabsent in
       wake_sends (upd f (mkS (s_alive x) (s_hp x) SUnreg None (s_val x)
-                             (s_woken x || woke_by (s_task x) (s_lastw x)) (s_lastw x)) fs)
+                             (s_woken x || woke_by (s_task x) (s_lastw x)) (s_lastw x) (s_tag x)) fs)
                  r (acc ++ wk_list (s_task x))
   end.
 
@@ -191,7 +192,7 @@ Definition vals_of (k : N) (l : list tag) : list N := flat_map (fun v => [k; v])
 Definition step (s : state) (o : op) : state * obs :=
   match o with
   | CreateSend f v =>
-      let s' := sets s (sendq s) (upd f (mkS true true SUnreg None (Some v) false None) (sfs s)) in
+      let s' := sets s (sendq s) (upd f (mkS true true SUnreg None (Some v) false None v) (sfs s)) in
       (s', mk_obs s' [R_UNIT] [] [])
   | PollSend f w =>
       let x := gets s f in
@@ -199,7 +200,7 @@ Definition step (s : state) (o : op) : state * obs :=
       else match s_st x with
       | SUnreg =>
           if closed s then
-            let s' := sets s (sendq s) (upd f (mkS true false SUnreg (s_task x) None false (Some w)) (sfs s)) in
+            let s' := sets s (sendq s) (upd f (mkS true false SUnreg (s_task x) None false (Some w) (s_tag x)) (sfs s)) in
             match s_val x with
             | Some v => (s', mk_obs s' [R_ERR; v] [] [V_BACK; v])
             | None => (s', mk_obs s' [R_OK] [] [])
@@ -208,7 +209,7 @@ Definition step (s : state) (o : op) : state * obs :=
             if memb f (sendq s) then (s, mk_obs s [R_UB] [] [])
             else
               let s1 := sets s (f :: sendq s)
-                          (upd f (mkS true true SReg (Some w) (s_val x) false (Some w)) (sfs s)) in
+                          (upd f (mkS true true SReg (Some w) (s_val x) false (Some w) (s_tag x)) (sfs s)) in
               let '(s', wk) := notify_oldest_recv s1 in
               (s', mk_obs s' [R_PENDING] wk [])
           else
@@ -216,15 +217,15 @@ Definition step (s : state) (o : op) : state * obs :=
             | None => (s, mk_obs s [R_PANIC] [] [])       (* expect("wait_node must contain value") *)
             | Some v =>
                 let s1 := sets (setbuf s (buf s ++ [v])) (sendq s)
-                            (upd f (mkS true false SUnreg (s_task x) None false (Some w)) (sfs s)) in
+                            (upd f (mkS true false SUnreg (s_task x) None false (Some w) (s_tag x)) (sfs s)) in
                 let '(s', wk) := notify_oldest_recv s1 in
                 (s', mk_obs s' [R_OK] wk [])
             end
       | SReg =>
-          let s' := sets s (sendq s) (upd f (mkS true true SReg (Some w) (s_val x) false (Some w)) (sfs s)) in
+          let s' := sets s (sendq s) (upd f (mkS true true SReg (Some w) (s_val x) false (Some w) (s_tag x)) (sfs s)) in
           (s', mk_obs s' [R_PENDING] [] [])
       | SComplete =>
-          let s' := sets s (sendq s) (upd f (mkS true false SComplete (s_task x) (s_val x) false (Some w)) (sfs s)) in
+          let s' := sets s (sendq s) (upd f (mkS true false SComplete (s_task x) (s_val x) false (Some w) (s_tag x)) (sfs s)) in
           (s', mk_obs s' [R_OK] [] [])
       end
   | CancelSend f =>
@@ -235,7 +236,7 @@ Definition step (s : state) (o : op) : state * obs :=
         let st' := match s_st x with SReg => SUnreg | p => p end in
         if (match s_st x with SReg => negb (memb f (sendq s)) | _ => false end) then (s, mk_obs s [R_PANIC] [] [])
         else
-          let s' := sets s q (upd f (mkS true false st' (s_task x) None false (s_lastw x)) (sfs s)) in
+          let s' := sets s q (upd f (mkS true false st' (s_task x) None false (s_lastw x) (s_tag x)) (sfs s)) in
           match s_val x with
           | Some v => (s', mk_obs s' [R_SOME; v] [] [V_BACK; v])
           | None => (s', mk_obs s' [R_NONE] [] [])
@@ -450,7 +451,8 @@ Fixpoint fresh_tag (fuel : nat) (v : N) (used : list tag) : tag :=
 Definition enabled (x : xstate) : list (list N) :=
   let s := xs x in
   if gone s then [] else
-  let v := fresh_tag (S (length (in_flight s))) 1%N (in_flight s) in
+  let used := in_flight s ++ flat_map (fun y => if s_alive y then [s_tag y] else []) (sfs s) in
+  let v := fresh_tag (S (length used)) 1%N used in
   flat_map (fun f =>
      let y := gets s f in
      if s_alive y then
@@ -473,5 +475,3 @@ Definition enabled (x : xstate) : list (list N) :=
         ++ (if Nat.ltb 0 (receivers s) then [[16%N]] else [])
       else [])
   ++ [encode Teardown].
-
-Definition machine : Base.machine := mkMachine xstate minit xstep enabled (fun x => x) (fun _ _ _ => true).
